@@ -347,8 +347,8 @@ func c35Run(c *core.Ctx) {
 	switch k := c.Index % 10; {
 	case k < 5:
 		kind := []string{"basic", "basic-mutable", "mutable-overlay", "compact", "basic"}[k]
-		if kind == "compact" && c.Index%20 != 3 {
-			kind = "basic-mutable" // a compact build under the race detector costs tens of seconds: 1 reader case in 20
+		if kind == "compact" && c.Index%10 != 3 {
+			kind = "basic-mutable" // a compact build under the race detector is the dearest reader case: 1 case in 10
 		}
 		c35Readers(c, kind)
 	case k < 8:
